@@ -37,6 +37,8 @@ func codecCorpus(thorough bool) []*ref.G {
 		})
 	}
 	out = append(out, collectionCorpus(thorough)...)
+	out = append(out, deepCollections(geom.XY, 8)...)
+	out = append(out, deepCollections(geom.XYZM, 6)...)
 	return out
 }
 
@@ -105,6 +107,32 @@ func bigCorpus(huge bool) []*ref.G {
 	out = append(out, ref.NewMultiPoint(geom.XY, pat, ref.Counter()))
 	if huge {
 		out = append(out, ref.NewLine(ref.LineString, geom.XY, 33000, ref.Counter()), ref.NewParts(ref.Polygon, geom.XYZM, []int{16385}, ref.Counter()))
+	}
+	return out
+}
+
+// deepCollections returns collections nested 3..maxDepth deep: a chain with a leaf at the bottom
+// that lies outside everything above it, and a sibling point at every level.
+func deepCollections(l geom.Layout, maxDepth int) []*ref.G {
+	var out []*ref.G
+	for d := 3; d <= maxDepth; d++ {
+		leaf := ref.NewPoint(l, true, ref.CounterFrom(float64(1000*d)))
+		cur := ref.NewCollection(geom.NoLayout, leaf)
+		for k := 1; k < d; k++ {
+			sib := ref.NewPoint(l, true, ref.CounterFrom(float64(10*k)))
+			if k%2 == 0 {
+				cur = ref.NewCollection(geom.NoLayout, sib, cur)
+			} else {
+				cur = ref.NewCollection(geom.NoLayout, cur, sib)
+			}
+		}
+		out = append(out, cur)
+		// a bare chain without siblings
+		bare := ref.NewCollection(geom.NoLayout, ref.NewLine(ref.LineString, l, 2, ref.CounterFrom(float64(-50*d))))
+		for k := 1; k < d; k++ {
+			bare = ref.NewCollection(geom.NoLayout, bare)
+		}
+		out = append(out, bare)
 	}
 	return out
 }
